@@ -33,7 +33,7 @@ Print Assumptions C01_app_hash_deterministic.
 (** sorted sites: journal.sortedDirties, Storage.SortedKeys, omap.ensureOrder, Sudoers.ToPb *)
 Theorem C01_sorted_site_deterministic :
   forall (A : Type) (f : list Z -> A) (l l' : list Z), Permutation l l' -> f (isort l) = f (isort l').
-Proof. intros A f l l' H. f_equal. exact (isort_perm_eq l l' H). Qed.
+Proof. intros A f l l' H. exact (sorted_site_deterministic f l l' H). Qed.
 Print Assumptions C01_sorted_site_deterministic.
 
 (** commutative sites: a fold whose steps commute pairwise (oracle folds over ValidatorPerformances) *)
